@@ -9,7 +9,23 @@ VClass(v) == IF DomainlessRoomIDs(v) THEN "domainless" ELSE IF PseudoIDs(v) THEN
 Cls(x) == IF x > 255 THEN ">255" ELSE "<=255"
 FieldDesc(f) == LET sh == sc.fields[f] IN
                 IF sh = Natural THEN "" ELSE f \o ":cps" \o Cls(CpsOf(sh)) \o ",bytes" \o Cls(BytesOf(sh)) \o ";"
-Desc == FieldDesc("type") \o FieldDesc("state_key") \o FieldDesc("sender") \o FieldDesc("room_id")
+\* --- naming of the two-excess scenarios -------------------------------------------------------------
+\* Bookkeeping, not specification (the judgement is the same for all of them).  known_findings.json lists one
+\* open finding: a soft excess of a field the library examines EARLIER returns "persistable" before the hard
+\* check of a field it examines LATER (order: room ID in the constructors; event size; type and state key;
+\* sender).  Exactly these (soft field, hard item) pairs are covered by it and keep the description its key
+\* pattern was written for.  Every other pair is right today and is pinned under a description of its own,
+\* which that pattern cannot match.
+SoftFields == {f \in Fields : CpsOf(sc.fields[f]) <= 255 /\ BytesOf(sc.fields[f]) > 255}
+HardItems == {f \in Fields : CpsOf(sc.fields[f]) > 255} \cup (IF sc.size > 65536 THEN {"size"} ELSE {})
+ListedMasked(soft, hard) == \/ soft = "room_id" /\ hard \in {"type", "state_key", "sender", "size"}
+                            \/ soft \in {"type", "state_key"} /\ hard = "sender"
+Listed == Family = "pair" /\ \E s \in SoftFields, h \in HardItems : ListedMasked(s, h)
+PinnedDesc(f) == LET sh == sc.fields[f] IN
+                 IF sh = Natural THEN "" ELSE f \o (IF CpsOf(sh) > 255 THEN ":over-cps;" ELSE ":bytes-only;")
+Desc == (IF Family = "pair" /\ ~Listed
+         THEN "two:" \o PinnedDesc("type") \o PinnedDesc("state_key") \o PinnedDesc("sender") \o PinnedDesc("room_id")
+         ELSE FieldDesc("type") \o FieldDesc("state_key") \o FieldDesc("sender") \o FieldDesc("room_id"))
         \o (IF sc.size = 0 THEN "" ELSE IF sc.size > 65536 THEN "json>65536;" ELSE "json<=65536;")
         \o (IF sc.hash = "match" THEN "" ELSE "hash=" \o sc.hash \o ";")
 
@@ -17,5 +33,5 @@ Emit == Done =>
           PrintT(ToJson([fam |-> Family, ver |-> sc.ver, path |-> sc.path, hash |-> sc.hash, size |-> sc.size, sizeof |-> sc.sizeof,
                          fields |-> [f \in Fields |-> [cps |-> sc.fields[f].cps, nwide |-> sc.fields[f].nwide,
                                                        width |-> sc.fields[f].width, bytes |-> BytesOf(sc.fields[f])]],
-                         want |-> out, vclass |-> VClass(sc.ver), desc |-> Desc]))
+                         want |-> out, vclass |-> VClass(sc.ver), desc |-> Desc, listed |-> Listed]))
 =============================================================================
